@@ -377,6 +377,7 @@ static void alloc_record(void* p, size_t size, const char* what, uintptr_t s0, u
   ai.nth = t_task->op_allocs;
   ai.site0 = s0;
   ai.site1 = s1;
+  ai.op_kind = t_task->cur_kind;
   g_live[(uintptr_t)p] = ai;
   race_forget_range((uintptr_t)p, size);
   SH->allocs++;
